@@ -169,6 +169,8 @@ def run(ctx, chk):
     for mname, d in sorted(dm.items()):
         if mname in ("word", "string", "new", "offset", "set_limit", "clear_limit", "has_limit", "limit_reached"):
             continue
+        if d["vis"] != "pub":
+            continue        # a private helper is evaluated in place with the public request that uses it
         nde += 1
         W_ = raw.where(mname, "Decoder")
         if mname in HAND:
